@@ -333,19 +333,18 @@ def check_ir(jobs, tmpdir):
     nfields = 0
     # every workspace the project assigns, by (plain) variant id
     ws_of = {}
-    same_ws = {}      # workspace -> package step instances of the project that live there (same Jenkins variant id)
+    same_ws = {}      # workspace -> step instances of the project that live there (same Jenkins variant id and kind)
     for job in jobs.values():
         for ps in job.getPackageSteps():
             pkg = ps.getPackage()
             for st in (ps, pkg.getBuildStep(), pkg.getCheckoutStep()):
                 if st.isValid():
                     ws_of.setdefault(st.getVariantId(), set()).add(st.getWorkspacePath())
+                    same_ws.setdefault(st.getWorkspacePath(), []).append(st)
                     for d in st.getAllDepSteps():
                         if d.isValid():
                             ws_of.setdefault(d.getVariantId(), set()).add(d.getWorkspacePath())
-                            if d.isPackageStep():
-                                same_ws.setdefault(d.getWorkspacePath(), []).append(d)
-            same_ws.setdefault(ps.getWorkspacePath(), []).append(ps)
+                            same_ws.setdefault(d.getWorkspacePath(), []).append(d)
     try:
         live_bids = BuildIds()
         for name, job in sorted(jobs.items()):
@@ -433,8 +432,8 @@ def check_ir(jobs, tmpdir):
                 ba = loop.run_until_complete(node_bids.one(a))
                 bb = loop.run_until_complete(proj_bids.one(lazy(b)))
                 nfields += 1
-                if ba != bb and b.isPackageStep():
-                    # package instances with one Jenkins variant id share the workspace and (in the builder's cache,
+                if ba != bb:
+                    # step instances with one Jenkins variant id share the workspace and (in the builder's cache,
                     # which is indexed by workspace) the Build-Id of whichever instance is asked first; they may differ
                     # in attributes outside the variant id (relocatable, fingerprint script)
                     for other in same_ws.get(b.getWorkspacePath(), []):
@@ -454,7 +453,15 @@ def check_ir(jobs, tmpdir):
                     continue
                 va, vb = step_view(d, False), step_view(lazy(l), False, l)
                 nfields += len(va)
-                for m in diff(vb, va):
+                ms = diff(vb, va)
+                if ms:
+                    # the entry may be that of another package instance with this Jenkins variant id (same workspace)
+                    for other in same_ws.get(d.getWorkspacePath(), []):
+                        if not diff(step_view(lazy(other), False, other), va):
+                            ms = []
+                            twin_hits[0] += 1
+                            break
+                for m in ms:
                     mismatches.append("%s dep %s %s" % (name, l.getPackage().getName(), m))
     finally:
         loop.close()
